@@ -259,6 +259,17 @@ pub fn run(seed: u64, thorough: bool, out_dir: &Path, scratch: &Path) -> Out {
                 if let Some(msg) = diff_dumps(&got, &want) {
                     viol.push(json!({"what": format!("after a crash and restart: {msg}"), "detail": ctx}));
                 }
+                // the epoch the restarted node works with is the epoch of its tip block
+                {
+                    let st = node.shared.store();
+                    let tip_hash = snap.tip_hash();
+                    let want = st.get_block_epoch_index(&tip_hash).and_then(|i| st.get_epoch_ext(&i));
+                    if want.is_none() || Some(snap.epoch_ext().clone()) != want || st.get_current_epoch_ext() != want {
+                        viol.push(json!({"what": "after the restart the current epoch (stored record / snapshot) is not the epoch of the tip block", "detail": {"case": ctx,
+                            "tip_epoch_last_hash_prev": want.as_ref().map(|e| format!("{:x}", e.last_block_hash_in_previous_epoch())),
+                            "stored_last_hash_prev": st.get_current_epoch_ext().map(|e| format!("{:x}", e.last_block_hash_in_previous_epoch()))}}));
+                    }
+                }
                 // the proposal view rebuilt at start-up is the window over the stored main chain
                 {
                     let w = (cfg.window.0, cfg.window.1);
